@@ -28,20 +28,20 @@
 (* With the deviations of the pinned code (Dev # {}) the monitors the      *)
 (* model breaks are recorded per case (`mv`): model counter-examples the   *)
 (* runner then confirms or refutes on the real code.                       *)
-(* A -seed'ed stratified sample (NPer cases per alteration x lock kind,    *)
-(* NHonest unaltered ones per lock kind, every model counter-example       *)
-(* stratum) is printed as JSON (tag CASE) with its program: the stimulus   *)
-(* of harness/replay_proof.                                                *)
+(* A -seed'ed stratified sample (per alteration x lock kind: NPer cases in *)
+(* which the alteration is the only thing wrong, NHonest for the unaltered *)
+(* reply, NAny of any shape) is printed as JSON (tag CASE) with its        *)
+(* program: the stimulus of harness/replay_proof.                          *)
 (***************************************************************************)
 EXTENDS PaymentProof, Randomization, Json
 
 CONSTANTS Amts, IncFees, NChanges, Srcs, ActIs, ActFs, LateLocks, Reqs, Dests, ActRs, Tams, FApis,
           Forks,        \* TRUE: the probes include the fork / re-mine phases
           MultiMut,     \* TRUE: the probes include the multi-field forgeries (Layer M only)
-          NPer, NHonest \* sample sizes per stratum
+          NPer, NAny, NHonest \* sample sizes per stratum
 
-VARIABLES ms, k, mv
-vars == <<ms, k, mv>>
+VARIABLES ms, k, mv, wit
+vars == <<ms, k, mv, wit>>
 
 \* late/lock kinds: "late" | "S1" | "S2" | "none"
 KindOf(c) == IF c.late THEN "late" ELSE c.lock
@@ -59,6 +59,7 @@ Prog(c) == SendProg(c) \o (IF c.tam = "none" THEN ProbeProg(MutSeq, Forks) ELSE 
 Init == /\ \E c \in CaseSpace : ms = Start(c)
         /\ k = 0
         /\ mv = {}
+        /\ wit = {}
 
 \* ProofSound on what the step just taken shows (exactly what TracePaymentProof evaluates on
 \* the observed events)
@@ -74,10 +75,20 @@ Broken(m) ==
              \cup (IF ~OffChainRefused(o.res, o.onchain) THEN {"OffChainRefused"} ELSE {})
         ELSE {})
 
+\* vacuity witnesses: things that must happen somewhere for the monitors to mean anything
+Witnessed(m) ==
+  LET o == m.last IN
+  (IF m.fin = "ok" THEN {"FinalizeOk"} ELSE {})
+  \cup (IF m.c.tam # "none" /\ m.fin = "err:proof" THEN {"ForgeryRefused"} ELSE {})
+  \cup (IF o.op = "verify" /\ o.res = "ok" THEN {"VerifyOk"} ELSE {})
+  \cup (IF o.op = "verify" /\ o.res = "err:proof" /\ o.onchain /\ o.proof # m.exp THEN {"MutantRefused"} ELSE {})
+  \cup (IF o.op = "verify" /\ o.res = "err:proof" /\ ~o.onchain /\ o.proof = m.exp THEN {"OffChainRefused"} ELSE {})
+
 Next == /\ k < Len(Prog(ms.c))
         /\ ms' = Step(ms, Prog(ms.c)[k + 1])
         /\ k' = k + 1
         /\ mv' = mv \cup Broken(ms')
+        /\ wit' = wit \cup Witnessed(ms')
 Spec == Init /\ [][Next]_vars
 
 Done == k = Len(Prog(ms.c))
@@ -95,8 +106,9 @@ Inv_VerifyIff ==
   (ms.last.op = "verify" /\ ms.last.res # "skip") =>
      (ms.last.res = "ok" <=> ProofValid(ms.last.proof, ms.last.proof.exc \in ms.chain))
 
-\* the honest path is live: nothing but a wrong account or a wrong signer stops it
-HonestCase(c) == /\ c.tam = "none" /\ c.req = SignerAddr(c) /\ SrcEff(c) = c.actF /\ KindOf(c) # "none"
+\* the honest path is live: nothing but a wrong account, a wrong signer or a missing lock stops it
+Clean(c) == /\ c.req = SignerAddr(c) /\ SrcEff(c) = c.actF /\ KindOf(c) # "none"
+HonestCase(c) == c.tam = "none" /\ Clean(c)
 Inv_Honest ==
   HonestCase(ms.c) =>
      /\ (ms.last.op = "finalize" => ms.last.res = "ok")
@@ -104,20 +116,18 @@ Inv_Honest ==
      /\ (ms.last.op = "verify" /\ ms.last.proof = ms.exp => (ms.last.res = "ok" <=> "final" \in ms.chain))
 
 \* ------------------------------------------------------------- generation
-Quota(x) == IF x[1] = "none" THEN NHonest ELSE NPer
 Take(n, S) == IF n >= Cardinality(S) THEN S ELSE RandomSubset(n, S)
-\* constant-level: evaluated once, deterministic under -seed.  Honest-path cases are sampled
-\* on top so that every lock kind exports and probes a proof.
-Sampled == UNION {Take(Quota(x), CasesOf(x[1], x[2])) : x \in Strata}
-           \cup UNION {Take(NHonest, {c \in CasesOf(x[1], x[2]) : HonestCase(c)}) : x \in {y \in Strata : y[1] = "none"}}
+\* constant-level: evaluated once, deterministic under -seed.  Per stratum (alteration x lock
+\* kind): NPer (NHonest for the unaltered reply) CLEAN cases - the alteration is the only thing
+\* wrong, so a refusal is a refusal of the alteration - and NAny cases of any shape.
+Sampled == UNION {Take(IF x[1] = "none" THEN NHonest ELSE NPer, {c \in CasesOf(x[1], x[2]) : Clean(c)})
+                  \cup Take(NAny, CasesOf(x[1], x[2])) : x \in Strata}
 
 Emit == (Done /\ ms.c \in Sampled) =>
-  PrintT(<<"CASE", ToJson([c |-> ms.c, prog |-> Prog(ms.c), mv |-> mv, fin |-> ms.fin, honest |-> HonestCase(ms.c)])>>)
+  PrintT(<<"CASE", ToJson([c |-> ms.c, prog |-> Prog(ms.c), mv |-> mv, fin |-> ms.fin, clean |-> Clean(ms.c)])>>)
 
-\* vacuity witnesses (each must be REACHABLE: the runner checks that TLC violates them)
-Wit_FinalizeOk      == ~(ms.fin = "ok")
-Wit_ForgeryRefused  == ~(ms.c.tam # "none" /\ ms.fin = "err:proof")
-Wit_VerifyOk        == ~(ms.last.op = "verify" /\ ms.last.res = "ok")
-Wit_MutantRefused   == ~(ms.last.op = "verify" /\ ms.last.res = "err:proof" /\ ms.last.onchain /\ ms.last.proof # ms.exp)
-Wit_OffChainRefused == ~(ms.last.op = "verify" /\ ms.last.res = "err:proof" /\ ~ms.last.onchain /\ ms.last.proof = ms.exp)
+\* each witness must be REACHABLE: printed at the end of every case of the (small) witness
+\* configuration; the runner requires the union to be complete
+AllWitnesses == {"FinalizeOk", "ForgeryRefused", "VerifyOk", "MutantRefused", "OffChainRefused"}
+WitEmit == Done => PrintT(<<"WIT", ToJson(wit)>>)
 =============================================================================
